@@ -10,7 +10,7 @@ Parts (complete enumerations):
            operator, 1 01 002, 1 02 002, 1 03 001, 1 01 000, 1 02 000, 031001} that are well formed by FM-94
            (replication nesting <= 4): the built tree == mc.ref.template ownership and flattening it returns the
            original list; plus the X sweep 1..63 for fixed and delayed replication and nesting-depth chains.
-  unknown  an undefined element / undefined sequence substituted at every (reached, non-factor) position of
+  unknown  an undefined element / undefined sequence substituted at every reached position of
            every well-formed list of length <= 4 (thorough 5): decoding must raise UnknownDescriptor.
   select   table selection: master version 0..45 x local version {0,1,2,3,4,101} x centre {0,7,98,99} x
            sub-centre {0,3} x master table {0,1,10}: the key of the table group == the documented fall-back
@@ -266,9 +266,9 @@ def run_unknown(args):
                 if d // 100000 == 1 and d % 1000 == 0:
                     factor_pos.add(k + 1)
             for k in range(len(ids)):
-                if k in factor_pos:
-                    continue
                 for u in (U_ELEM, U_SEQ):
+                    if k in factor_pos and u == U_SEQ:
+                        continue      # a sequence descriptor in the place of a factor is a different list structure
                     p.n['exec'] += 1
                     ids2 = ids[:k] + [u] + ids[k + 1:]
                     b, _ = message.build(message.Spec(descs=ids2, nsub=1), buf)
@@ -374,8 +374,8 @@ def main(tier, seed):
                        'descriptor lists and are not generated',
                        'Table D entries that are themselves ill formed (counted as illformed_entries) are compared by flat '
                        'expansion only',
-                       'the position of a delayed-replication factor is not substituted (the factor must be a class-31 '
-                       'element; the statement is about descriptors that are "in no table")']
+                       'an undefined SEQUENCE is not substituted in the position of a delayed-replication factor (that changes '
+                       'the structure of the list); an undefined element is']
     versions = [(v, None) for v in tables.master_versions()] + [(13, loc) for loc in tables.local_dirs()]
     k = seed % len(versions)
     p = merge_all(run_shards(run_tabled, [[v] for v in versions[k:] + versions[:k]]))
